@@ -59,7 +59,7 @@ Inductive pfp := POwn (f : mfp) | PBuiltin | PInherit.
 
 Inductive perr :=
 | ErrBuiltin              (* BuiltinModuleError from Module.filepath *)
-| ErrRelFilepath          (* ValueError "No directory in ... is relative to the current working directory" *)
+| ErrRelFilepath          (* IndexError: `self.filepath[0]` of a namespace package without any directory (the finder never builds one) *)
 | ErrRelPackageFilepath   (* ValueError from relative_package_filepath (bare `raise ValueError` or relative_to) *)
 | ErrNotSerializable.     (* TypeError from json.dumps: an object without encoding rule (after as_dict succeeded everywhere) *)
 
@@ -70,12 +70,13 @@ Arguments Raised {A} e.
 Definition render_fp (f : mfp) : fpath :=
   match f with MOne p => FPOne (render_abs p) | MList l => FPList (map render_abs l) end.
 
-(* Object.relative_filepath *)
+(* Object.relative_filepath: relative to the cwd when below it (a namespace package: its first directory that is), else the
+   absolute path (a namespace package: its first directory; since fix bb0db70, ValueError before) *)
 Definition rel_filepath (cwd : path) (f : mfp) : res string :=
   match f with
   | MList l => match first_some (fun p => relative_to p cwd) l with
                | Some r => Done (render_rel r)
-               | None => Raised ErrRelFilepath
+               | None => match l with d :: _ => Done (render_abs d) | [] => Raised ErrRelFilepath end
                end
   | MOne p => match relative_to p cwd with
               | Some r => Done (render_rel r)
@@ -208,23 +209,6 @@ Definition placed_top (t : pobj) : bool :=
   | PAlias _ _ _ _ _ => true
   end.
 
-(* C09-F6: some object's file path is a list of directories none of which is below the cwd *)
-Definition f6_at (cwd : path) (f : mfp) : bool :=
-  match f with
-  | MList l => negb (existsb (fun p => is_below cwd p) l)
-  | MOne _ => false
-  end.
-
-Fixpoint f6_gap (cwd : path) (cur : option mfp) (t : pobj) : bool :=
-  match t with
-  | PAlias _ _ _ _ _ => false
-  | PObj _ _ _ fp _ _ _ _ members =>
-      match effective cur fp with
-      | None => false
-      | Some f => f6_at cwd f || existsb (fun nm => f6_gap cwd (Some f) (snd nm)) members
-      end
-  end.
-
 (* C09-F7: a module file that is not below any directory of its package (a module that only exists in a stubs-only
    package found on another search path) *)
 Definition f7_gap (t : pobj) : bool := negb (placed_top t).
@@ -278,14 +262,14 @@ Definition perr_name (e : perr) : string :=
   | ErrNotSerializable => "not_serializable"
   end.
 
-(* ("dump" cwd tree) -> ("ok" json loadable placed f6 ) | ("err" which placed f6)
+(* ("dump" cwd tree) -> ("ok" json loadable placed) | ("err" which loadable placed)
    ("relpath" pkg f) -> relative_package_filepath alone, ("ok" s) | ("err") *)
 Definition run_paths (s : sexp) : option sexp :=
   match s with
   | SList [SStr "dump"; c; t] =>
       match path_of c, pobj_of t with
       | Some cwd, Some t' =>
-          let flags := [of_bool (ploadable t'); of_bool (placed_top t'); of_bool (f6_gap cwd None t')] in
+          let flags := [of_bool (ploadable t'); of_bool (placed_top t')] in
           Some (match dump cwd t' with
                 | Done j => SList (SStr "ok" :: sexp_of_json j :: flags)
                 | Raised e => SList (SStr "err" :: SStr (perr_name e) :: flags)
